@@ -25,6 +25,10 @@
   all-PNR case where it is proved transparent; a pseudo-PNR reading below the maximum is proved NOT to identify
   the photon count (`reading_below_max_not_exact`), so masking before such a detector is unsound
   (`mask_before_detectors_unsound`).
+  Extension round 2: `prob_threshold > 0` (`Model/C08Thr.lean`, `Lemmas/C08Thr.lean`), `min_p > 0` for `phys_perf`
+  alone / the normalised result / the sample law and `tensor_product`'s empty-left-factor quirk
+  (`Lemmas/C08Sample.lean`), the backend's `add` inside `BSLayeredPPNR.detect` (`bsDetectP`), and mixed inputs through
+  the detector path (`Model/C08Mix.lean`, `Lemmas/C08Mix.lean`).
   What is still not proved is listed at the end of this file.
 -/
 import PercevalModel.Lemmas.C08
@@ -1839,19 +1843,26 @@ example : mkDetector (some 3) none = .ok (.wired 3 3) ∧ (0 : ℚ) ≤ 0 ∧ (1
   STILL NOT PROVED (validated by the correspondence only):
   * that the native SLOS backend implements the Fock amplitude specification `perm(U[t|s])/√(∏s!∏t!)` on
     `BSLayeredPPNR.create_circuit()` (compiled code outside the model; property C02 is about exactly that). GIVEN
-    the specification, the multinomial leaf law `treeOcc` is now a THEOREM (`bsTree_leaf_law_from_fock`), no longer an
-    assumption; the model of `create_circuit()`/`compute_unitary()` (`treeU`) is compared with the real unitary on
-    every run;
-  * for `min_p > 0`: a pointwise bound for the NORMALISED result and for `phys_perf` alone (proved are:
-    the un-normalised pointwise bound `simulate_detectors_minp_bound`, the mass/performance balance
-    `simulate_detectors_mass_minp`, the exact laws `simulate_detectors_pointwise_minp` /
-    `kernel_entry_minp` / `detect_fold_minp`, and `simulate_detectors_normalised` (any `min_p`), from
-    which such a bound follows by dividing — not carried out);
-  * `sample_law_is_kernel_product` for `min_p > 0`; `prob_threshold > 0`; the statistical quality of
-    `BSDistribution.sample`;
-  * `probsSvd` (`Model/C08Glue.lean`) takes the theoretical distribution `base` of the backend as given, for ONE Fock
-    input of a perfect source; `probs_svd_conditioned_law` is stated at `min_p ≤ 0` (at the shipped `1e-16` the
-    deviation is bounded by `simulate_detectors_minp_bound`); noisy / mixed inputs belong to C03–C05.
+    the specification, the multinomial leaf law `treeOcc` is a THEOREM (`bsTree_leaf_law_from_fock`); that the backend
+    builds its dictionary with `add` (leaf states not above `min_p` dropped: `treeOccP`, `bsDetectP`) is modelled as coded
+    and compared with the real `BSLayeredPPNR.detect` at changed `min_p` on every run;
+  * `min_p > 0`, `prob_threshold > 0`: PROVED in this round — `phys_perf` alone, the retained mass alone, the
+    un-normalised and the NORMALISED result against the exact law (`simulate_detectors_threshold_bound`,
+    `simulate_detectors_threshold_normalised`, `simulate_detectors_phys_minp`, `simulate_detectors_normalised_minp`), the
+    exact rule of what the threshold drops (`tensor_threshold_exact`, `threshold_dropped_state_is_small`), the sample law
+    at any `min_p` under the guard "no per-mode result is empty" and the exact behaviour when the guard fails
+    (`sample_law_is_kernel_product_minp`, `kernel_empty_iff`, `sample_restarts_after_empty_kernel`). The slacks are sums over
+    the input states of `min_p`/`T` times counts of `add` calls / output states: they are not claimed to be tight;
+  * mixed inputs: `probs_svd_mix_law` is stated at exact parameters (`min_p ≤ 0`, precision 0, positive weights, normalised
+    non-negative member distributions, non-PNR detector list, `kept ≠ []`, retained mass `≠ 0`); at the shipped `1e-16` /
+    a positive precision the model `probsSvdMix` is what the correspondence compares, and the deviation of its
+    `simulate_detectors` step is the one bounded above; `logical_perf` is characterised through the pointwise identity
+    (its closed form as a weighted sum of the members' accepted masses is not stated separately); members are
+    un-annotated Fock states (superposed / partially distinguishable inputs belong to C03–C05); the all-PNR (mask) path of
+    the mixture is in the model and compared, without a separate theorem;
+  * the statistical quality of `BSDistribution.sample`; progress callbacks / cancellation; a detector's `_cache` is keyed
+    by the photon count only — results cached under another `min_p` are returned unchanged (histories are modelled at a
+    constant `min_p`).
 -/
 
 end examples
